@@ -16,7 +16,8 @@ import storefam
 import vlib
 
 PID = "C09"
-FILES = ["theories/Properties/C09.v", "theories/Examples/C09Examples.v"]
+FILES = ["theories/Properties/C09.v", "theories/Examples/C09Examples.v",
+         "theories/Properties/C09Reachable.v", "theories/Examples/C09ReachableExamples.v"]
 UNFIXABLE = {"KUConflict", "KNil", "KFkDangling"}
 ORDER_KEY = "C09:fix-order-unique-on-nullable-fk"
 
